@@ -165,3 +165,20 @@ check("C16", "model_checking",
       "the Go PRNG and queue rotation are not modelled (any admissible outcome is accepted); fairness of the distribution and "
       "qualifyFlips are outside; one recorded known finding (package over the size limit for few authors / many candidates)",
       "TLA+ relation over all small layouts + real lottery and key packages on each + TLC trace validation", "DESIGN.md#c16")
+
+HOOK_COMMITS += ["cc583289", "48ded5ba"]
+
+check("C08", "model_checking",
+      "ForkStore.tla models fork handling step by step (OfferFork, CheckForkSize with the code's weight rule, per-block ValidateBlock "
+      "with the certificate rules, ValidateTip, ResetTo, AddBlock, WriteCert, RefSync) with the invariants AdoptOnlyCertified, "
+      "AdoptionCompletes, AdoptionEqualsSync, RevertedReturned, RefusedUnchanged, RefuseIffUnacceptable; TLC enumerates fork shapes "
+      "(ancestor depth, fork length, per-block certificate in {nil, empty, under-quorum, forged, valid}, per-block validity, weight "
+      "relation, content incl. identity-update blocks) and exports them; each shape is realised on REAL nodes (both branches proposed "
+      "by real nodes, real vote sets, bundles as the bytes of a real BlocksRange message into the real ForkResolver), a reference replica "
+      "syncs the fork from the ancestor, and TLC validates verdict and post-adoption summaries (head, roots, validator view, canonical "
+      "index, certificates, read-only view, next block, reverted transactions).",
+      "quick replays 1000 of ~17 000 exported shapes (949 classes) + 120 random; chained reorgs, ancestors outside the retained window, "
+      "left-over indexes of abandoned blocks and identity diffs (C11) are outside; an acceptable fork that the node refuses is drift "
+      "only (the property is an 'only if'): ValidateSubChain's stale validator view after an identity-update block before the tip is "
+      "reported that way",
+      "TLA+ fork model + TLC-exported shapes on real ForkResolver + TLC trace validation", "DESIGN.md#c08")
